@@ -42,8 +42,11 @@ def len (s : Store τ) : Nat := s.ctrl.len
 
 /-! #### gameplay side (ResourceController) -/
 
-/-- mirrors: resources.rs::ResourceController::try_reserve (`ok none` = `Err(ResourceLimitReached)`) -/
+/-- mirrors: resources.rs::ResourceController::try_reserve (`ok none` = `Err(ResourceLimitReached)`).
+    A capacity of 0 is answered with the limit error *before* the arena controller is asked
+    (atomic-arena's `try_reserve` would index slot 0 of an empty slot vector). -/
 def tryReserve (s : Store τ) : Except SFault (Option Key × Store τ) :=
+  if s.ctrl.capacity = 0 then .ok (none, s) else
   match s.ctrl.tryReserve with
   | .error e => .error e
   | .ok (k, c) => .ok (k, { s with ctrl := c })
@@ -79,6 +82,38 @@ def insert (s : Store τ) (x : τ) : Except SFault (Option Key × Store τ) :=
     match s1.insertWithKey k x with
     | .error e => .error e
     | .ok s2 => .ok (some k, s2)
+
+/-- mirrors: error.rs::PlaySoundError / the `Ok` of `play` -/
+inductive PlayResult where
+  /-- `Err(PlaySoundError::IntoSoundError(_))` -/
+  | intoSoundError
+  /-- `Err(PlaySoundError::SoundLimitReached)` -/
+  | limit
+  /-- `Ok(handle)`; the sound travels under this key -/
+  | ok (k : Key)
+deriving DecidableEq, Repr
+
+/-- mirrors: track/main/handle.rs::MainTrackHandle::play, track/sub/handle.rs::TrackHandle::play,
+    mirrors: track/sub/spatial_handle.rs::SpatialTrackHandle::play (and manager.rs::AudioManager::play, which
+    forwards to the main track): `sound_data.into_sound()` comes *first* — when it fails
+    (`sound = none`) `play` returns before the sound storage is touched, nothing is reserved — and
+    only then `sound_controller.insert(sound)`. -/
+def play (s : Store τ) (sound : Option τ) : Except SFault (PlayResult × Store τ) :=
+  match sound with
+  | none => .ok (.intoSoundError, s)
+  | some x =>
+    match s.insert x with
+    | .error e => .error e
+    | .ok (none, s1) => .ok (.limit, s1)
+    | .ok (some k, s1) => .ok (.ok k, s1)
+
+/-- `n` plays in a row whose `into_sound()` fails -/
+def failedPlays : Nat → Store τ → Except SFault (Store τ)
+  | 0, s => .ok s
+  | n + 1, s =>
+    match s.play none with
+    | .error e => .error e
+    | .ok (_, s1) => failedPlays n s1
 
 /-! #### audio side (ResourceStorage) -/
 
